@@ -163,3 +163,20 @@ Theorem built_antennas_in_construction_order : forall ct o c m pos subs args kw 
   flat_map (fun x => match x with LAnt a _ _ _ => [a] | _ => [] end) lg = map a_id pos.
 Proof. exact build_base_order. Qed.
 Print Assumptions built_antennas_in_construction_order.
+
+(* construction order for ARBITRARY trees (build_antennas recursing through the subsets as written,
+   any args / kwargs / class table): after a successful build the iterated antennas are the antenna
+   positions of the tree in subset order, and the antennas constructed are, in construction order, the
+   positions held by the base detectors *)
+Theorem build_order_any_tree : forall ct t args kw t' lg,
+  build ct t args kw = (t', None, lg) ->
+  flatten t' = tree_positions t /\ built_ids lg = map a_id (constructed_positions t).
+Proof. exact build_order_lemma. Qed.
+Print Assumptions build_order_any_tree.
+
+(* ... so when every antenna sits in a detector (no loose antennas / antenna lists among the subsets),
+   iterating the built detector visits exactly the antennas constructed, once each, in construction order *)
+Theorem build_iterates_constructed_antennas : forall ct t args kw t' lg,
+  no_loose t -> build ct t args kw = (t', None, lg) -> map a_id (flatten t') = built_ids lg.
+Proof. exact build_iterates_constructed. Qed.
+Print Assumptions build_iterates_constructed_antennas.
